@@ -69,7 +69,7 @@ impl Joypad {
     self.select_direction = value & 0x10 == 0;
     self.select_action = value & 0x20 == 0;
     let new_value = self.get_value() & 0x0f;
-    if new_value < prev_value {
+    if prev_value & !new_value != 0 { // a bit went low, even if another went high
       self.next_interrupt = InterruptFlag::joypad();
     }
   }
